@@ -43,10 +43,20 @@ def harnesses(ctx, pairs):
           ("c01", "c01.cpp", lambda tr: [tr, "small" if ctx.quick else "quick"])]
     if not ctx.quick:
         hs += [("c18", "c18.cpp", lambda tr: [tr, pairs, "quick"]), ("c06", "c06.cpp", lambda tr: [tr, "quick"])]
+    # the quaternion / transform / projection / geometry harnesses: quaternion storage order, CTOR_INIT, language-level bodies of the
+    # conversion constructors ... reach code the op-table harnesses above do not.  quick: under the combined-macro and the CXX98 variants.
+    sel = (lambda lab: lab.startswith("CXX11+INLINE+CTOR_INIT+EXPLICIT_CTOR+UNRESTRICTED+WXYZ") or lab == "CXX98") if ctx.quick else (lambda lab: True)
+    # (c04 uses the explicit conversion operators of qua, a C++11 language feature: not under CXX98)
+    hs += [("c04", "c04.cpp", lambda tr: [tr, "quick"], (lambda lab: sel(lab) and "CXX98" not in lab and "CXX03" not in lab), ["-DC04_FULL"]), ("c09", "c09.cpp", lambda tr: [tr, "0", "quick", "full"], sel),
+           ("c08", "c08.cpp", lambda tr: [tr, "10", "quick", "full"], sel, ["-DC08_HAVE_INF_HALF"]), ("c12", "c12.cpp", lambda tr: [tr, "quick"], sel)]
     return hs
 
 
-def cross_validate(ctx, base_path, var_path, label, kind="std", mode="config", sample=64):
+def wants(h, lab):
+    return lab == BASE[0] or len(h) < 4 or h[3] is None or h[3](lab)
+
+
+def cross_validate(ctx, base_path, var_path, label, kind="std", mode="config", sample=64, rkeys="all"):
     """E6: pair the two traces chunk by chunk (same round-robin dealing) and let CrossCfg.tla compare them."""
     with open(base_path, "rb") as f:
         A0 = f.readlines()
@@ -77,7 +87,7 @@ def cross_validate(ctx, base_path, var_path, label, kind="std", mode="config", s
 
     def one(j):
         pa, pb, i = j
-        return j, vlib.tlc("CrossCfg", env={"TRACE": pa, "TRACE_B": pb, "KIND": kind, "MODE": mode}, workers=1, timeout=900, scratch=ctx.scratch)
+        return j, vlib.tlc("CrossCfg", env={"TRACE": pa, "TRACE_B": pb, "KIND": kind, "MODE": mode, "RKEYS": rkeys}, workers=1, timeout=900, scratch=ctx.scratch)
     events = bad = 0
     for (pa, pb, i), r in vlib.pmap(one, jobs):
         s = r.printed("SUMMARY")
@@ -133,8 +143,10 @@ def run(ctx):
     hs = harnesses(ctx, pairs)
     specs = []
     for (lab, flags, cxx, opt) in [BASE] + variants:
-        for (hn, src, _) in hs:
-            specs.append({"name": "c15_%s_%s" % (hn, re.sub(r"\W", "_", lab)), "src": src, "flags": flags, "cxx": cxx, "opt": opt, "lab": lab, "hn": hn})
+        for h in hs:
+            hn, src = h[0], h[1]
+            if wants(h, lab):
+                specs.append({"name": "c15_%s_%s" % (hn, re.sub(r"\W", "_", lab)), "src": src, "flags": flags + (h[4] if len(h) > 4 else []), "cxx": cxx, "opt": opt, "lab": lab, "hn": hn})
     t = time.time()
     built = vlib.build_many(specs)
     vlib.log("[build] %d binaries (%.1fs)" % (len(specs), time.time() - t))
@@ -160,7 +172,15 @@ def run(ctx):
             ctx.violation("harness %s aborted under configuration %s (exit %d)" % (key[1], key[0], rc), rp)
         else:
             traces[key] = tr
-    for (hn, _, _) in hs:
+            if key[1] == "c04":
+                # the "mem" / "make_quat" events of the C04 harness observe the memory order of the quaternion, which is what
+                # GLM_FORCE_QUAT_DATA_WXYZ is documented to change (C16 judges it); results are what C15 compares
+                with open(tr, "rb") as f:
+                    keep = [ln for ln in f if b'"o":"' not in ln]
+                with open(tr, "wb") as f:
+                    f.writelines(keep)
+    for h in hs:
+        hn = h[0]
         base = traces.get((BASE[0], hn))
         if not base:
             continue
@@ -169,7 +189,7 @@ def run(ctx):
             tr = traces.get((lab, hn))
             if tr:
                 fallback = any(f in ("-DGLM_FORCE_CXX98", "-DGLM_FORCE_CXX03") for f in flags)
-                cross_validate(ctx, base, tr, "%s-%s" % (hn, lab), "fallback" if fallback else "std")
+                cross_validate(ctx, base, tr, "%s-%s" % (hn, lab), "fallback" if fallback else "std", rkeys="r" if hn in ("c04", "c08", "c09", "c12") else "all")
                 os.remove(tr)
     ctx.rule("the op-table harnesses of C01, C02, C05, C11, C14 (+ C06, C18 thorough) compiled under a baseline (g++ -std=c++17 -O1) and %d variant "
              "configurations (language levels, the non-semantic GLM_FORCE_* macros alone and combined, -O0/-O2/-O3, clang++); every variant "
